@@ -124,10 +124,15 @@ func runCheck(repo, verif, prop, tier string, workers int, noReplay bool) int {
 	}
 	var results []*interp.HarnessResult
 	status := 0
+	coverSeen := map[string]map[string]int64{}
+	coverWant := map[string][]string{}
 	var problems []string
 	for _, r := range runs {
 		cfg := &interp.Config{SolverTimeoutMs: 5000, MaxSteps: 30_000_000, ConcCap: 64, Workers: workers,
 			Params: r.Params, Sched: r.Sched, Preempt: r.Preempt, Race: r.Race, Known: knownIDs, Tier: tier}
+		if m := r.Params["maxsteps_m"]; m > 0 {
+			cfg.MaxSteps = int64(m) * 1_000_000 // per-path unwinding budget in millions of SSA instructions
+		}
 		cfg.MaxWall = 12 * time.Minute
 		if tier == "thorough" {
 			cfg.SolverTimeoutMs = 30000
@@ -180,10 +185,21 @@ func runCheck(repo, verif, prop, tier string, workers int, noReplay bool) int {
 			problems = append(problems, "vacuous: no completed path in "+r.Fn)
 			status = 3
 		}
-		for _, c := range res.Expected {
-			if res.Covers[c] == 0 {
-				fmt.Printf("VACUOUS property=%s harness=%s: cover label %q never reached\n", prop, r.Fn, c)
-				problems = append(problems, "vacuous: cover "+c+" not reached in "+r.Fn)
+		for c, n := range res.Covers {
+			if coverSeen[r.Fn] == nil {
+				coverSeen[r.Fn] = map[string]int64{}
+			}
+			coverSeen[r.Fn][c] += n
+		}
+		coverWant[r.Fn] = res.Expected
+	}
+	// reachability witnesses: every cover label of a harness must be reached by at least one
+	// of the runs of that harness (runs restricted to one scenario cannot reach the others)
+	for fn, want := range coverWant {
+		for _, c := range want {
+			if coverSeen[fn][c] == 0 {
+				fmt.Printf("VACUOUS property=%s harness=%s: cover label %q never reached\n", prop, fn, c)
+				problems = append(problems, "vacuous: cover "+c+" not reached in "+fn)
 				status = 3
 			}
 		}
@@ -251,9 +267,20 @@ func runCheck(repo, verif, prop, tier string, workers int, noReplay bool) int {
 					tries = 25 // free-running goroutines under the native race detector
 				}
 				for t := 0; t < tries && !o.reproduced; t++ {
-					out, derr := runReplay(repo, bin, o.run.Pkg, rp)
+					// races: first under the recorded schedule (the replay runtime hides its own
+					// synchronisation from the native detector), then on free-running goroutines
+					var env []string
+					if o.v.Kind == "race" && t >= 3 {
+						env = []string{"VERIF_FREERUN=1"}
+					}
+					out, derr := runReplay(repo, bin, o.run.Pkg, rp, env...)
 					o.output = out
 					o.reproduced, o.diverged, o.nativeDiag = judgeReplay(o.v, out, derr)
+					if nl, ok := o.nativeDiag["_native_label"].(string); ok {
+						o.v.Msg += " (symbolic label " + o.v.Label + ")"
+						o.v.Label = nl
+						delete(o.nativeDiag, "_native_label")
+					}
 				}
 			}(o)
 		}
@@ -414,10 +441,6 @@ func writeReplay(dir, prop, tier string, v interp.Violation, run HRun, known map
 		"assert": map[string]any{"label": v.Label, "kind": v.Kind, "diag": v.Diag, "msg": v.Msg},
 		"sched":  run.Sched, "schedule": v.Schedule,
 	}
-	if v.Kind == "race" {
-		// races are confirmed by the native race detector on free-running goroutines
-		doc["schedule"] = nil
-	}
 	b, _ := json.MarshalIndent(doc, "", " ")
 	h := sha1.Sum(b)
 	name := fmt.Sprintf("%s-%x.json", v.Harness[strings.LastIndex(v.Harness, ".")+1:], h[:5])
@@ -504,10 +527,10 @@ func buildReplayBinary(repo, verif string, prog *interp.Program, pkg string, rac
 	return bin, nil
 }
 
-func runReplay(repo, bin, pkg, replay string) (string, error) {
+func runReplay(repo, bin, pkg, replay string, env ...string) (string, error) {
 	cmd := exec.Command(bin, "-test.run", "^TestVerifReplay$", "-test.v", "-test.timeout", "60s")
 	cmd.Dir = filepath.Join(repo, pkg)
-	cmd.Env = append(os.Environ(), "VERIF_REPLAY="+replay)
+	cmd.Env = append(append(os.Environ(), "VERIF_REPLAY="+replay), env...)
 	var out bytes.Buffer
 	cmd.Stdout, cmd.Stderr = &out, &out
 	done := make(chan error, 1)
@@ -532,6 +555,7 @@ func judgeReplay(v interp.Violation, out string, runErr error) (reproduced, dive
 	}
 	switch v.Kind {
 	case "assert":
+		other, otherDiag := "", ""
 		for _, line := range strings.Split(out, "\n") {
 			if !strings.HasPrefix(line, "VERIF-ASSERT-FAIL ") {
 				continue
@@ -545,6 +569,17 @@ func judgeReplay(v interp.Violation, out string, runErr error) (reproduced, dive
 				json.Unmarshal([]byte(rest[sp+1:]), &diag)
 				return true, false, diag
 			}
+			if other == "" {
+				other, otherDiag = rest[:sp], rest[sp+1:]
+			}
+		}
+		if other != "" {
+			// the real code failed another assertion of the same harness on the replayed
+			// input/schedule (e.g. timing after the recorded schedule differs): still a
+			// native failure of this property's oracle
+			json.Unmarshal([]byte(otherDiag), &diag)
+			diag["_native_label"] = other
+			return true, false, diag
 		}
 	case "panic":
 		if i := strings.Index(out, "VERIF-PANIC "); i >= 0 {
@@ -574,15 +609,10 @@ func judgeReplay(v interp.Violation, out string, runErr error) (reproduced, dive
 		}
 	case "race":
 		if strings.Contains(out, "WARNING: DATA RACE") {
-			// the native report must involve the functions of the symbolic report
+			// a native report must have the two functions of the symbolic report as its two
+			// conflicting accesses (innermost frames)
 			fns := raceFuncs(v.Label)
-			ok := true
-			for _, f := range fns {
-				if !strings.Contains(out, f) {
-					ok = false
-				}
-			}
-			if ok {
+			if raceReportMatches(out, fns) {
 				diag["msg"] = v.Label
 				diag["funcs"] = strings.Join(fns, ",")
 				return true, false, diag
@@ -733,6 +763,47 @@ func cmdReplay(args []string) {
 	}
 }
 
+// raceReportMatches: some "WARNING: DATA RACE" block of the native output has one access
+// whose innermost frames are in fns[0] and the other access in fns[1] (either order).
+func raceReportMatches(out string, fns []string) bool {
+	if len(fns) != 2 {
+		return false
+	}
+	for _, block := range strings.Split(out, "WARNING: DATA RACE")[1:] {
+		if i := strings.Index(block, "=================="); i >= 0 {
+			block = block[:i]
+		}
+		var acc [][]string // innermost frames of every access section
+		lines := strings.Split(block, "\n")
+		for i := 0; i < len(lines); i++ {
+			l := lines[i]
+			if !(strings.HasPrefix(l, "Read at ") || strings.HasPrefix(l, "Write at ") || strings.HasPrefix(l, "Previous read at ") || strings.HasPrefix(l, "Previous write at ")) {
+				continue
+			}
+			var frames []string
+			for j := i + 1; j < len(lines) && strings.TrimSpace(lines[j]) != "" && len(frames) < 4; j += 2 {
+				frames = append(frames, strings.TrimSpace(lines[j]))
+			}
+			acc = append(acc, frames)
+		}
+		if len(acc) != 2 {
+			continue
+		}
+		has := func(frames []string, fn string) bool {
+			for _, f := range frames {
+				if strings.Contains(f, "."+fn) {
+					return true
+				}
+			}
+			return false
+		}
+		if has(acc[0], fns[0]) && has(acc[1], fns[1]) || has(acc[0], fns[1]) && has(acc[1], fns[0]) {
+			return true
+		}
+	}
+	return false
+}
+
 // raceFuncs extracts the short function names from a race label
 // "race: R (*pkg.T).m (file:line) <-> W pkg.f (file:line)".
 func raceFuncs(label string) []string {
@@ -746,7 +817,10 @@ func raceFuncs(label string) []string {
 		if i := strings.LastIndex(name, "."); i >= 0 {
 			name = name[i+1:]
 		}
-		name = strings.TrimSuffix(name, "$1")
+		if i := strings.IndexByte(name, '$'); i >= 0 {
+			out = append(out, name[:i]+".func") // closure: the native report says f.funcN
+			continue
+		}
 		out = append(out, name+"(")
 	}
 	return out
